@@ -1,6 +1,6 @@
 """C12 - results depend only on the input: no state leaks, no hash-seed dependence.
 
-histories  every sequence of <=2 (quick) / <=3 (thorough) inputs from a 12-input alphabet (valid modules with / without
+histories  every sequence of <=2 (quick) / <=3 (thorough) inputs from a 15-input alphabet (valid modules with / without
            MODULE-IDENTITY and REVISION, with an enterprise OID, with a table, SMIv1 style, importing another input;
            lexical error on line 4, unterminated MACRO, text ending inside a comment, truncated text, syntax error after
            a multi-line string, duplicate symbol) fed to ONE parser, ONE symbol-table + code generator pair (JSON and
@@ -23,7 +23,7 @@ from mc import core, env
 from mc.env import error
 
 BOUNDS = {
-    'quick': 'all sequences of <=2 inputs (12-input alphabet) on parser / generators / compiler; triple repetition; 8 hash seeds',
+    'quick': 'all sequences of <=2 inputs (15-input alphabet) on parser / generators / compiler; triple repetition; 8 hash seeds',
     'thorough': 'all sequences of <=3 inputs; 64 hash seeds',
 }
 ASSUMPTIONS = ['time stamp, host and user lines of generated output are masked',
@@ -122,7 +122,26 @@ muRoot OBJECT IDENTIFIER ::= { 1 3 6 1 4 1 9998 }
 END
 """
 
-INPUTS = [('V_REV', 'ALPHA-MIB', V_REV), ('V_NOID', 'BETA-MIB', V_NOID), ('V_TBL', 'GAMMA-MIB', V_TBL), ('V_V1', 'DELTA-MIB', V_V1),
+E_UNKTYPE = """NU-MIB DEFINITIONS ::= BEGIN
+IMPORTS OBJECT-TYPE FROM SNMPv2-SMI;
+nuRoot OBJECT IDENTIFIER ::= { 1 3 6 1 4 1 1010 }
+nuObj OBJECT-TYPE SYNTAX NowhereDefinedType MAX-ACCESS read-only STATUS current DESCRIPTION "o" ::= { nuRoot 1 }
+END
+"""
+E_UNKPARENT = """XI-MIB DEFINITIONS ::= BEGIN
+xiNode OBJECT IDENTIFIER ::= { nowhereDefinedParent 1 }
+END
+"""
+E_GEN = """OMICRON-MIB DEFINITIONS ::= BEGIN
+IMPORTS OBJECT-TYPE FROM SNMPv2-SMI;
+omiRoot OBJECT IDENTIFIER ::= { 1 3 6 1 4 1 1212 }
+OmiRow ::= SEQUENCE { omiCol INTEGER }
+omiFlags OBJECT-TYPE SYNTAX BITS { a(0), b(1) } MAX-ACCESS read-only STATUS current DESCRIPTION "o" DEFVAL { { nosuchbit } } ::= { omiRoot 1 }
+END
+"""
+
+INPUTS = [('E_UNKTYPE', 'NU-MIB', E_UNKTYPE), ('E_UNKPARENT', 'XI-MIB', E_UNKPARENT), ('E_GEN', 'OMICRON-MIB', E_GEN),
+          ('V_REV', 'ALPHA-MIB', V_REV), ('V_NOID', 'BETA-MIB', V_NOID), ('V_TBL', 'GAMMA-MIB', V_TBL), ('V_V1', 'DELTA-MIB', V_V1),
           ('V_IMP', 'EPSILON-MIB', V_IMP), ('V_NOENT', 'ZETA-MIB', V_NOENT), ('E_LEX4', 'ETA-MIB', E_LEX4),
           ('E_MACRO', 'THETA-MIB', E_MACRO), ('V_COMMENT', 'IOTA-MIB', V_COMMENT), ('E_TRUNC', 'KAPPA-MIB', E_TRUNC),
           ('E_SYN', 'LAMBDA-MIB', E_SYN), ('E_DUP', 'MU-MIB', E_DUP)]
@@ -165,7 +184,7 @@ class Gens(object):
 
     def feed(self, name, text, base=False):
         try:
-            trees = env.fresh_parser(DIALECT).parse(text)
+            trees = env.parse(text, DIALECT)   # a clean parser state; the generators are the objects under study here
         except error.PySmiError as exc:
             return ('parse-error', type(exc).__name__)
         out = []
